@@ -126,7 +126,7 @@ def run(path, modules, rlimit=None, threads=16, seed=None, timeout=1500, extra=N
         if b["msg"].startswith("aborting due to"):
             continue
         rl = "resource limit" in b["msg"].lower() or "rlimit" in b["msg"].lower()
-        r.errors.append({"msg": b["msg"], "line": b.get("body_line") or b["line"], "text": b["text"],
+        r.errors.append({"msg": b["msg"], "line": b.get("body_line") or b["line"], "clause_line": b["line"], "text": b["text"],
                          "semantic": is_semantic(b["msg"]) and not rl, "rlimit": rl, "code": b["code"]})
     if any(e["code"] for e in r.errors) and not r.functions:
         r.ok = False
